@@ -47,15 +47,14 @@ def canon(o):
     k = kind_of(o)
     if k == 'P':
         return ('P', str(o))
-    return (k, str(o), o._get_verbose_pattern(), bool(getattr(o, '_Class__is_negated', None)))
+    return (k, str(o), o._get_verbose_pattern())
 
 
 def snapshot(o):
     """Everything a builder or a matcher can observe of a value."""
-    d = (str(o), o._get_type(), o._is_repeatable(), o.__class__.__name__,
-         getattr(o, '_Pregex__compiled', None) is None)
+    d = (str(o), o._get_type(), o._is_repeatable(), o.__class__.__name__)
     if hasattr(o, '_get_verbose_pattern'):
-        d += (o._get_verbose_pattern(), getattr(o, '_Class__is_negated', None))
+        d += (o._get_verbose_pattern(),)
     return d
 
 
